@@ -35,7 +35,7 @@ GLUE FACTS of the code as written (all mirrored here, all exercised by `harness/
 * `apply_changes` always addresses graph `"g:surface"`; the version is bumped whatever the store did.
 
 CACHES (all three may be ON): the T1 result cache across turns (`State.t1c`, key (graph, sorted seeds)), the
-orchestrator's CacheManager around T2 (`State.orch`, key (version, input text), `cache_bust_mode` on-apply), and
+orchestrator's CacheManager around T2 (`State.orch`, key (version, input text, ctx-digest: `OrchCtx`), `cache_bust_mode` on-apply), and
 the process-global T2 stage cache (transparent here, see `t2Stage`).  No TTL expiry / eviction inside a history.
 
 GEL (graph.enabled): `observe_retrieval` on ALL hits T2 returned (after T2, skipped in a dry run), the decay tick
@@ -44,13 +44,51 @@ and the merge/split/promotion block inside `if t4_enabled:` after T4 and BEFORE 
 
 REFLECTION TAIL (t3.allow_reflection + `state["_planner_reflection_flag"]`): C19's `Clem.Refl.tail` (repaired tail,
 fresh ctx per turn, rule-based backend, no faults, logical clock) on the turn's utterance and the texts of the T2
-hits; the written episodes only count (`State.memN`) — the harness keeps them invisible to retrieval.
+hits (fallback: `ctx.turn_artifacts["t2_snippets"]` of the LAST `t2_semantic` call); the written episodes become
+state (`State.mem`) and are visible to later retrievals under the owner literal `"agent"`.
 
-LEFT OUT (the harness keeps them off and says so): scheduler, perf/metrics gate,
-T2 quality + hybrid layers (the T2 model has them; they are switched off here), LLM backend, node `attrs.tags`,
-the boot snapshot loader (`_boot_loaded` pre-set), wall-clock `now`, the `t3.enabled` / env T3 gate (modelled as
-`Cfg.t3Enabled`, only exercised through the dry-run path), a changing world (graphs / memory / config are fixed
-during a history — `State` is exactly what a history carries).
+SNAPSHOTS / BOOT / RESTART (`snapBody`, `bootOf`, `restartHist`: C06's `Clem.Snap`), SEVERAL AGENTS ON ONE STATE
+(`runTurnsMA`), and THE LOG STREAM (`Clem/Model/ComposeLog.lean`: every record of every stream, emission order, key
+order, `normalize_for_identity`).
+
+WHAT IS INSIDE, WHAT IS A PARAMETER, WHAT IS NOT COVERED (status after step 8)
+
+| part of `run_turn`                          | status                                                                  |
+|---------------------------------------------|-------------------------------------------------------------------------|
+| T1 propagation, budgets, result cache       | inside (`Clem.T1`)                                                      |
+| query build (label bleed across graphs)     | inside                                                                  |
+| T2 tiers / ranking / hybrid / fusion / MMR  | inside (`Clem.T2`); PARAMETERS (oracles measured on the real run):      |
+|                                             | cosines, centroid cosines, BM25 scores, MMR token sets, ts parsing,     |
+|                                             | quarter / cluster ids                                                   |
+| numpy statistics of the t2 record           | inside (`npSum` / `npMax`: pairwise summation modelled)                 |
+| plan bundle, `deliberate`, thresholds       | inside (`Clem.T3`); the planner hook's ops / deltas are turn INPUTS     |
+| `rag_once` (second full T2 call)            | inside                                                                  |
+| `speak`: default template, token budget     | inside (`Clem.T3.speak`); NOT covered: custom templates, style prefix,  |
+|                                             | LLM backend, the rewrite rules of `_sanitize_utterance` (only `.strip`) |
+| T4 filter                                   | inside (`Clem.T4`); `sqrt` and the literal 0.999999 are carrier ops     |
+| `apply_changes`                             | inside (`Clem.Apply`) on the rig's store double (clamp to [-1, 1]);     |
+|                                             | NOT covered here: store faults, snapshot write faults (C04 / C08)       |
+| version bump, cache bust on apply           | inside (`Props/C01/ComposeCache.lean`)                                  |
+| caches (T1 result, orchestrator turn-level) | inside as association lists; PARAMETER: no TTL expiry, no eviction      |
+|                                             | within a history; the process-global T2 stage cache is transparent      |
+| GEL observe / tick / merge-split-promotion  | inside (`Clem.Gel`); merge / split candidates are oracles               |
+| scheduler slice budgets, yield decision     | inside (`Clem.Sched`) with the LOGICAL clock (measured elapsed = 0);    |
+|                                             | NOT covered: next-agent pick / fairness across many agents (C17's own   |
+|                                             | model), `pick_reason`, the driver-captured scheduler event              |
+| reflection tail, memory index growth        | inside; sha256 episode ids and embeddings are oracles                   |
+| snapshot body, boot hook, process restart   | inside (`Clem.Snap`); NOT covered: which of several `state_*.json` a    |
+|                                             | boot picks (mtime), delta / compressed snapshots, `.meta` sidecar       |
+| several agents on one state                 | inside (`runTurnsMA`); the turn-level cache key digests the agent       |
+|                                             | (fix `C05_turn_key_context`): no sharing between agents, cache on or off|
+| LOG RECORDS of t1 t2 gel scheduler t3       | inside since step 8 (`ComposeLog.lean`): payloads, key order, emission  |
+| t3_plan t3_dialogue t4 apply t3_reflection  | order, CI normalisation; PARAMETER: the measured `ms*` values (`Clock`) |
+| health turn                                 | and the printed constants (`LogEnv`); NOT covered: `t3_filter.jsonl`,   |
+|                                             | quality / perf trace streams                                            |
+| identity-log PATH below `append_jsonl`      | NOT covered (LogMux staging, rotation, framing: C16 / C20 models); the  |
+|                                             | harness reads the lines `_append_jsonl_unbuffered` wrote                |
+| perf / metrics gate, node `attrs.tags`,     | NOT covered (kept off)                                                  |
+| `t3.enabled` env gate, wall-clock `now`     |                                                                         |
+| a changing world (graphs / config)          | NOT covered: fixed during a history — `State` is what a history carries |
 -/
 import Clem.Model.T1
 import Clem.Model.T2
@@ -203,6 +241,41 @@ structure TurnIn (α : Type) where
   /-- `ctx.agent_id` of this turn when the history alternates agents on one state (`none`: the world's agent) -/
   agent : Option Str := none
 
+/-- What `_t2_turn_key_context` digests into the key of the orchestrator's turn-level T2 cache — as far as it can VARY
+inside a history of the model's world (`ctx.now`, `cfg.t2`, `cfg.perf`, `k_surface`, the etags of the active graphs and
+the slice cap `t2_k` are constant there): the turn's agent, the ids of T1's deltas, `index_version()` of the memory
+index (reflection writes move it without moving `version_etag`), and — with hybrid reranking on — the GEL edges
+(`none`: hybrid off; `some none`: `state.graph` does not exist yet). -/
+structure OrchCtx (α : Type) where
+  agent : Str
+  ids : List Str
+  indexVer : Nat
+  gel : Option (Option (List (Clem.Gel.Edge α)))
+
+/-- `key = (version_etag, str(input_text), ctx-digest)` -/
+abbrev OrchKey (α : Type) := (Clem.Apply.Ver × Str) × OrchCtx α
+
+/-- `repr` of two edge records agree (weights by Python `==`) -/
+def edgeSame {α : Type} [Clem.Py.NumGel α] (a b : Clem.Gel.Edge α) : Bool :=
+  a.key == b.key && a.src == b.src && a.dst == b.dst && Clem.Py.NumGel.eq a.w b.w && a.concept == b.concept &&
+  a.coact == b.coact && decide (a.lst = b.lst)
+
+/-- `sorted(edges.items())` agree: the same records, in whatever order the dict holds them -/
+def edgesSame {α : Type} [Clem.Py.NumGel α] (a b : List (Clem.Gel.Edge α)) : Bool :=
+  a.length == b.length && a.all (fun x => b.any (edgeSame x)) && b.all (fun x => a.any (edgeSame x))
+
+def gelKeySame {α : Type} [Clem.Py.NumGel α] : Option (Option (List (Clem.Gel.Edge α))) →
+    Option (Option (List (Clem.Gel.Edge α))) → Bool
+  | none, none => true
+  | some none, some none => true
+  | some (some a), some (some b) => edgesSame a b
+  | _, _ => false
+
+/-- two keys digest to the same cache key -/
+def okeyEq {α : Type} [Clem.Py.NumGel α] (a b : OrchKey α) : Bool :=
+  a.1 == b.1 && a.2.agent == b.2.agent && a.2.ids == b.2.ids && a.2.indexVer == b.2.indexVer &&
+  gelKeySame a.2.gel b.2.gel
+
 /-- What a history carries from turn to turn: the store's weight map, the version counter, and (caches ON) the
 process-global T1 result cache — keyed by (graph, sorted seed ids); the rest of the real key (etag, config) is
 constant in a history — and the orchestrator's T2 cache keyed by (version, input text).  Assumptions: no TTL
@@ -211,9 +284,9 @@ structure State (α : Type) where
   w : List ((Str × Str × Str) × α)
   ver : Clem.Apply.Ver
   t1c : List ((Nat × List Nat) × Clem.T1.GRes α)
-  orch : List ((Clem.Apply.Ver × Str) × Clem.T2.Out α)
+  orch : List (OrchKey α × Clem.T2.Out α)
   /-- the `hybrid` block of the metrics of each cached T2 result (same keys, same order as `orch`) -/
-  orchH : List ((Clem.Apply.Ver × Str) × HInfo) := []
+  orchH : List (OrchKey α × HInfo) := []
   /-- `state.graph`, the GEL store (`none`: the key does not exist yet) -/
   gel : Clem.Gel.State α
   /-- number of reflection episodes `write_reflection_entries` has added to the memory index so far.  Nothing in
@@ -269,7 +342,7 @@ def seedKey {α : Type} (g : Clem.T1.Graph α) (text : Str) : List Nat :=
 /-- the cached results that this call's keys hit, presented to `Clem.T1.addGraph` (which looks up by graph) -/
 def t1Pre {α : Type} (cache : List ((Nat × List Nat) × Clem.T1.GRes α)) (gs : List (Clem.T1.Graph α))
     (text : Str) : List (Nat × Clem.T1.GRes α) :=
-  gs.filterMap (fun g => (cache.find? (fun e => e.1 == (g.gid, seedKey g text))).map (fun e => (g.gid, e.2)))
+  gs.flatMap (fun g => (cache.filter (fun e => e.1 == (g.gid, seedKey g text))).map (fun e => (g.gid, e.2)))
 
 /-- `t1_propagate` with the process cache `cache` (`Clem.T1.t1` when the cache is empty or off) -/
 def t1Run {α : Type} [Clem.T1.Num α] (c : Clem.T1.Cfg α) (gs : List (Clem.T1.Graph α)) (text : Str)
@@ -808,27 +881,33 @@ structure T2St (α : Type) where
   oracleMiss : Bool
   /-- `cm.stats["size"]` when the t2 record is written -/
   size : Nat
-  orch : List ((Clem.Apply.Ver × Str) × Clem.T2.Out α)
+  orch : List (OrchKey α × Clem.T2.Out α)
   /-- the `hybrid` block of the result's metrics (cached with it) -/
   hinfo : HInfo := .absent
-  orchH : List ((Clem.Apply.Ver × Str) × HInfo) := []
+  orchH : List (OrchKey α × HInfo) := []
 
-/-- the T2 section of `run_turn`: `key = (version, str(input_text))`, `cm.get` / `t2_semantic` + `cm.set`.
+/-- the key of this turn's lookup in the orchestrator's T2 cache (fix `C05_turn_key_context`) -/
+def orchKey : OrchKey α :=
+  ((s.ver, t.text),
+   { agent := w.agent, ids := idsOfTurn w c s t, indexVer := s.mem.length,
+     gel := if c.hyb.enabled then some (s.gel.map (·.edges)) else none })
+
+/-- the T2 section of `run_turn`: `key = (version, str(input_text), ctx-digest)`, `cm.get` / `t2_semantic` + `cm.set`.
 (The process-global T2 STAGE cache, `t2.cache.enabled`, is keyed by the query text and everything else the stage
-reads; in a history of the model's world a hit returns what the stage would compute again, so it has no state
-here — it only changes the constants `cache_enabled / cache_used / cache_misses` of the t2 record.  With the hybrid
-reranker on, the stage also reads the GEL store, which that key ignores (C05's finding `t2:state`): the harness
-keeps the stage cache off in hybrid worlds.) -/
+reads — since the fixes `C05_t2_key_*` also the label map, the hybrid settings with the GEL edges, and the identity
+and version of the memory index; in a history of the model's world a hit returns what the stage would compute again,
+so it has no state here — it only changes the constants `cache_enabled / cache_used / cache_misses` of the t2
+record.) -/
 def t2Stage : T2St α :=
   let fresh := t2Call w c o s.gel (qOf w c s t) s.mem
   let out := fresh.getD (emptyT2 c)
   let hi := if fresh.isSome then hybridInfo (hybOf c s.gel) (out.pre.map (·.1)) else .absent
   if c.orchCacheOn then
-    match s.orch.find? (fun e => e.1 == (s.ver, t.text)) with
+    match s.orch.find? (fun e => okeyEq e.1 (orchKey w c s t)) with
     | some e => ⟨e.2, true, false, s.orch.length, s.orch,
-                 ((s.orchH.find? (fun e => e.1 == (s.ver, t.text))).map (·.2)).getD .absent, s.orchH⟩
-    | none => ⟨out, false, fresh.isNone, s.orch.length + 1, s.orch ++ [((s.ver, t.text), out)], hi,
-               s.orchH ++ [((s.ver, t.text), hi)]⟩
+                 ((s.orchH.find? (fun e => okeyEq e.1 (orchKey w c s t))).map (·.2)).getD .absent, s.orchH⟩
+    | none => ⟨out, false, fresh.isNone, s.orch.length + 1, s.orch ++ [(orchKey w c s t, out)], hi,
+               s.orchH ++ [(orchKey w c s t, hi)]⟩
   else ⟨out, false, fresh.isNone, 0, s.orch, hi, s.orchH⟩
 
 /-- the T2 result the rest of the turn sees -/
@@ -932,7 +1011,7 @@ def t1cNext : List ((Nat × List Nat) × Clem.T1.GRes α) :=
   if c.t1.cacheOn then s.t1c ++ t1Puts (t1Graphs w) t.text (t1Of w c s t) else s.t1c
 /-- the orchestrator cache after the turn: untouched when the turn yields after T1, emptied by a committed apply in
 `on-apply` mode -/
-def orchNext : List ((Clem.Apply.Ver × Str) × Clem.T2.Out α) :=
+def orchNext : List (OrchKey α × Clem.T2.Out α) :=
   if !reach w c s t o 0 then s.orch
   else if commits w c s t o && c.bust && c.orchCacheOn then [] else (t2Stage w c s t o).orch
 def utterOfTurn : Str := if t3On c t && reach w c s t o 2 then utterOf c (planFinal w c s t o).ops else []
